@@ -26,6 +26,21 @@ package raftstorage
 //	st.LastIndex(ctx)     // 5      reference ms.LastIndex() = 3
 //	st.Entries(ctx, 4, 6, 0) // [(4,t1) (5,t1)]   reference: none
 //	st.Term(ctx, 5)       // 1      reference: ErrUnavailable
+//
+// Observation (not a C14 violation, reported through Extra "unpredicted_refusals"): when scopes write
+// concurrently, a call the write worker refuses fails every request sharing its Pebble batch:
+//
+//	db, _ := raftlog.Open(dir, raftlog.Options{WriteBatchMaxWait: 300 * time.Millisecond}); a, b := db.ForSlot(1), db.ForSlot(2)
+//	a.Save(ctx, multiraft.PersistentState{HardState: &raftpb.HardState{Term: 1, Commit: 5}, Snapshot: &snapAt5}); a.MarkApplied(ctx, 2)
+//	go a.(multiraft.ExternalSnapshotStorage).ReplaceSnapshot(ctx, snapAt2) // refused by the worker: ErrSnapOutOfDate (correct)
+//	time.Sleep(50 * time.Millisecond)                                      // same batch window
+//	b.Save(ctx, multiraft.PersistentState{HardState: &raftpb.HardState{Term: 1}, Entries: []raftpb.Entry{{Index: 1, Term: 1}}})
+//	// -> returns the same ErrSnapOutOfDate; b.LastIndex() == 0: flushWriteRequests fails the whole cross-scope batch
+//
+// C14 constrains what the store holds for the calls that took effect.  A call that returns an error
+// the specification did not predict is therefore checked for having persisted NOTHING (a refused call
+// that changed the store is a violation), counted, and repeated; only a refusal that persists over
+// maxRetry repetitions is reported (the store can then never hold what the reference holds).
 
 import (
 	"bytes"
@@ -52,6 +67,7 @@ import (
 const (
 	propID   = "C14"
 	knownSig = "C14:stale-suffix-after-nonmatching-snapshot-install"
+	maxRetry = 20
 )
 
 var scopeOf = map[string]raftlog.Scope{
@@ -286,6 +302,18 @@ func (s *sut) projectAll() (map[string]any, error) {
 // apply performs the call described by ev on the real store and returns the reply.
 // A non-nil error is harness trouble (unknown action, cannot reopen) unless it is an obsErr.
 func (s *sut) apply(ev map[string]any) (map[string]any, error) {
+	res, _, err := s.applyE(ev)
+	return res, err
+}
+
+// applyE is apply that also hands out the error a mutating call returned (reply ok=false).
+func (s *sut) applyE(ev map[string]any) (map[string]any, error, error) {
+	var callErr error
+	res, err := s.applyInner(ev, &callErr)
+	return res, callErr, err
+}
+
+func (s *sut) applyInner(ev map[string]any, callErr *error) (map[string]any, error) {
 	scope := kit.Str(ev, "s")
 	switch a := kit.Str(ev, "a"); a {
 	case "Save":
@@ -299,6 +327,7 @@ func (s *sut) apply(ev map[string]any) (map[string]any, error) {
 			ps.Snapshot = &sn
 		}
 		err := s.st(scope).Save(ctx, ps)
+		*callErr = err
 		return map[string]any{"ok": err == nil}, nil
 	case "ReplaceSnapshot":
 		r, ok := s.st(scope).(multiraft.ExternalSnapshotStorage)
@@ -306,9 +335,11 @@ func (s *sut) apply(ev map[string]any) (map[string]any, error) {
 			return nil, errors.New("store does not implement ExternalSnapshotStorage")
 		}
 		err := r.ReplaceSnapshot(ctx, snapFromEv(kit.Map(ev, "snap")).pb(scope))
+		*callErr = err
 		return map[string]any{"ok": err == nil}, nil
 	case "MarkApplied":
 		err := s.st(scope).MarkApplied(ctx, uint64(kit.Int(ev, "i")))
+		*callErr = err
 		return map[string]any{"ok": err == nil}, nil
 	case "MarkConfigApplied":
 		r, ok := s.st(scope).(multiraft.ConfigAppliedIndexStorage)
@@ -316,6 +347,7 @@ func (s *sut) apply(ev map[string]any) (map[string]any, error) {
 			return nil, errors.New("store does not implement ConfigAppliedIndexStorage")
 		}
 		err := r.MarkConfigApplied(ctx, uint64(kit.Int(ev, "i")))
+		*callErr = err
 		return map[string]any{"ok": err == nil}, nil
 	case "Reopen":
 		if err := s.db.Close(); err != nil {
@@ -692,10 +724,53 @@ func knownDeviation(want, got map[string]any, suffix []any) bool {
 // ---- replay of TLC behaviours ------------------------------------------------------------
 
 type replayOutcome struct {
-	step    int
-	f       *finding
-	known   int
-	actions []string
+	step     int
+	f        *finding
+	known    int // occurrences of the registered stale-suffix deviation
+	refusals int // calls that failed although the specification accepts them, persisted nothing and succeeded when repeated
+	refusal  any // the first of them, written out
+	actions  []string
+}
+
+func errNote(err error) string {
+	if err == nil {
+		return ""
+	}
+	return fmt.Sprintf(" (error returned: %q)", err)
+}
+
+// callChecked performs ev.  If the call fails although the specification accepts it, the scope's
+// observations must be exactly what they were before (prev); the call is then repeated.
+// refusals counts such repetitions; f is set when the refused call changed something or the
+// refusal persists.
+func callChecked(s *sut, ev map[string]any, prev map[string]any) (res map[string]any, callErr error, refusals int, sample any, f *finding, err error) {
+	want := kit.Map(ev, "res")
+	for try := 0; ; try++ {
+		res, callErr, err = s.applyE(ev)
+		if err != nil || want == nil || !kit.Bool(want, "ok") || kit.Bool(res, "ok") {
+			return
+		}
+		if _, has := res["ok"]; !has {
+			return
+		}
+		now, perr := s.project(kit.Str(ev, "s"))
+		if perr != nil {
+			f = &finding{kind: "state", detail: fmt.Sprintf("%s failed with %q and the scope cannot be observed afterwards: %v", kit.JSON(kit.CloneEv(ev)), callErr, perr)}
+			return
+		}
+		if d := kit.Diff(prev, now); d != "" {
+			f = &finding{kind: "state", detail: fmt.Sprintf("%s returned the error %q but changed the store: %s (spec= before the call)", kit.JSON(kit.CloneEv(ev)), callErr, d)}
+			return
+		}
+		if try == 0 {
+			sample = map[string]any{"unpredicted_refusal": kit.CloneEv(ev), "error": fmt.Sprint(callErr), "persisted": "nothing"}
+		}
+		if try >= maxRetry {
+			f = &finding{kind: "reply", detail: fmt.Sprintf("%s is refused %d times in a row with %q although it is Raft-valid and accepted by the specification and the reference", kit.JSON(kit.CloneEv(ev)), try+1, callErr)}
+			return
+		}
+		refusals++
+	}
 }
 
 // replaySequential replays one behaviour step by step: reply and full projection (every scope)
@@ -716,8 +791,21 @@ func replaySequential(dir string, b kit.Behaviour, withRef bool) replayOutcome {
 			x.refs[sc] = newRef()
 		}
 	}
+	prev, err := s.projectAll()
+	if err != nil {
+		out.f = &finding{kind: "state", detail: "fresh store: " + err.Error()}
+		return out
+	}
 	check := func(si int, ev map[string]any, wantRes any, wantSt any) *finding {
-		res, err := s.apply(ev)
+		res, callErr, n, sample, f, err := callChecked(s, ev, kit.Map(prev, kit.Str(ev, "s")))
+		if n > 0 && out.refusal == nil {
+			out.refusal = sample
+		}
+		out.refusals += n
+		if f != nil {
+			f.detail = fmt.Sprintf("step %d: %s", si, f.detail)
+			return f
+		}
 		if err != nil {
 			var oe obsErr
 			if errors.As(err, &oe) {
@@ -727,7 +815,7 @@ func replaySequential(dir string, b kit.Behaviour, withRef bool) replayOutcome {
 		}
 		if wantRes != nil {
 			if d := kit.Diff(wantRes, res); d != "" {
-				return &finding{kind: "reply", detail: fmt.Sprintf("step %d %s: %s", si, kit.JSON(kit.CloneEv(ev)), d)}
+				return &finding{kind: "reply", detail: fmt.Sprintf("step %d %s: %s%s", si, kit.JSON(kit.CloneEv(ev)), d, errNote(callErr))}
 			}
 		}
 		proj, err := s.projectAll()
@@ -739,6 +827,7 @@ func replaySequential(dir string, b kit.Behaviour, withRef bool) replayOutcome {
 				return &finding{kind: "state", detail: fmt.Sprintf("step %d after %s: %s", si, kit.JSON(kit.CloneEv(ev)), d)}
 			}
 		}
+		prev = proj
 		if f := x.refStep(ev, res, func(sc string) (map[string]any, error) { return kit.Map(proj, sc), nil }, scopes); f != nil {
 			f.detail = fmt.Sprintf("step %d: %s", si, f.detail)
 			return f
@@ -763,6 +852,13 @@ func replaySequential(dir string, b kit.Behaviour, withRef bool) replayOutcome {
 	return out
 }
 
+type idxStep struct {
+	i  int
+	st kit.Step
+}
+
+func (x idxStep) event() map[string]any { return x.st.Ev }
+
 // replayConcurrent replays the same behaviour with one goroutine per scope between the Reopen
 // barriers (scopes are independent in the specification, so every step's reply and own-scope
 // projection are determined whatever the interleaving): this exercises the shared write worker
@@ -778,10 +874,6 @@ func replayConcurrent(dir string, b kit.Behaviour) replayOutcome {
 	}
 	defer func() { _ = s.db.Close() }()
 	x := &runner{sut: s, refs: map[string]*refStore{"s1": newRef(), "s2": newRef()}}
-	type idxStep struct {
-		i  int
-		st kit.Step
-	}
 	var mu sync.Mutex
 	fail := func(i int, f *finding) {
 		mu.Lock()
@@ -806,15 +898,33 @@ func replayConcurrent(dir string, b kit.Behaviour) replayOutcome {
 			wg.Add(1)
 			go func(sc string, mine []idxStep) {
 				defer wg.Done()
+				prev, err := s.project(sc)
+				if err != nil {
+					fail(0, &finding{kind: "state", detail: fmt.Sprintf("scope %s cannot be observed: %v", sc, err)})
+					return
+				}
 				for _, is := range mine {
 					ev := is.st.Ev
-					res, err := s.apply(ev)
+					res, callErr, n, sample, f, err := callChecked(s, ev, prev)
+					if n > 0 {
+						mu.Lock()
+						out.refusals += n
+						if out.refusal == nil {
+							out.refusal = sample
+						}
+						mu.Unlock()
+					}
+					if f != nil {
+						f.detail = fmt.Sprintf("step %d (concurrent scopes): %s", is.i, f.detail)
+						fail(is.i, f)
+						return
+					}
 					if err != nil {
 						fail(is.i, &finding{kind: "reply", detail: fmt.Sprintf("step %d %s (concurrent scopes): %v", is.i, kit.JSON(kit.CloneEv(ev)), err)})
 						return
 					}
 					if d := kit.Diff(ev["res"], res); d != "" {
-						fail(is.i, &finding{kind: "reply", detail: fmt.Sprintf("step %d %s (concurrent scopes): %s", is.i, kit.JSON(kit.CloneEv(ev)), d)})
+						fail(is.i, &finding{kind: "reply", detail: fmt.Sprintf("step %d %s (concurrent scopes): %s%s", is.i, kit.JSON(kit.CloneEv(ev)), d, errNote(callErr))})
 						return
 					}
 					p, err := s.project(sc)
@@ -826,6 +936,7 @@ func replayConcurrent(dir string, b kit.Behaviour) replayOutcome {
 						fail(is.i, &finding{kind: "state", detail: fmt.Sprintf("step %d after %s (concurrent scopes): %s", is.i, kit.JSON(kit.CloneEv(ev)), d)})
 						return
 					}
+					prev = p
 					if f := x.refStep(ev, res, func(string) (map[string]any, error) { return p, nil }, []string{sc}); f != nil {
 						f.detail = fmt.Sprintf("step %d (concurrent scopes): %s", is.i, f.detail)
 						fail(is.i, f)
@@ -1116,7 +1227,17 @@ func TestVerifRaftStorage(t *testing.T) {
 		dirNo++
 		return filepath.Join(base, fmt.Sprintf("d%05d", dirNo))
 	}
-	knownReported := false
+	knownReported, refusalSampled := false, false
+	noteRefusals := func(o replayOutcome, mode string) {
+		if o.refusals == 0 {
+			return
+		}
+		rep.AddExtra("unpredicted_refusals", o.refusals)
+		if !refusalSampled {
+			refusalSampled = true
+			rep.Extra("unpredicted_refusal_sample", map[string]any{"mode": mode, "call": o.refusal})
+		}
+	}
 	noteKnown := func(n int, f func() *finding, replay any) {
 		if n == 0 {
 			return
@@ -1148,6 +1269,7 @@ func TestVerifRaftStorage(t *testing.T) {
 		if out.f != nil {
 			report(rep, out.f, map[string]any{"behaviour": b, "step": out.step, "mode": "sequential"})
 		}
+		noteRefusals(out, "sequential")
 		if out.known > 0 {
 			bb := b
 			noteKnown(out.known, func() *finding { return firstKnown(fresh(), bb) }, map[string]any{"behaviour": b, "mode": "sequential"})
@@ -1155,6 +1277,8 @@ func TestVerifRaftStorage(t *testing.T) {
 		rep.Replayed(len(b.Steps) - 1)
 		if bi == 0 {
 			rep.Sample(map[string]any{"steps": b.Steps[:min(len(b.Steps), 6)]})
+		}
+		if bi == 0 && out.f == nil {
 			// self-test of the binding: an altered expectation must be noticed
 			alt := alter(b)
 			d2 := fresh()
@@ -1173,6 +1297,7 @@ func TestVerifRaftStorage(t *testing.T) {
 			if oc.f != nil {
 				report(rep, oc.f, map[string]any{"behaviour": b, "step": oc.step, "mode": "concurrent scopes"})
 			}
+			noteRefusals(oc, "concurrent scopes")
 		}
 		if rep.Violations() >= 4 {
 			break
